@@ -32,9 +32,9 @@ def conc(v):
 
 def check_hist(ctx, depth, first):
     ctx.eng.max_strlen = 64
-    b0 = ctx.sandbox_base(32, "b0")
-    b1 = ctx.sandbox_base(32, "b1")
-    ctx.assume(b0 != b1)
+    b0 = ctx.sandbox_base(32, "b0", aligned=False)
+    b1 = ctx.sandbox_base(32, "b1", aligned=False)
+    ctx.assume(z3.Or(z3.UGE(b0, b1 + BV(1 << 32, 64)), z3.UGE(b1, b0 + BV(1 << 32, 64))))
     ops = ctx.buffer(depth, name="op")
     for b in ops.init:
         ctx.assume(z3.ULE(b, NOPS - 1))
@@ -178,7 +178,7 @@ def check_hist(ctx, depth, first):
 
 
 def check_recreate_cb(ctx):
-    b0 = ctx.sandbox_base(32, "b0")
+    b0 = ctx.sandbox_base(32, "b0", aligned=False)
     how = ctx.sym("how", 32)
     ctx.assume(z3.ULE(how, 2))
     paths = ctx.run("k_recreate_callback", [b0, how])
@@ -198,7 +198,7 @@ def check_recreate_cb(ctx):
 
 def check_recreate_sym(ctx):
     ctx.eng.max_strlen = 64
-    b0 = ctx.sandbox_base(32, "b0")
+    b0 = ctx.sandbox_base(32, "b0", aligned=False)
     af = ctx.sym("addr_first", 32)
     ctx.assume(z3.ULE(af, 1))
     paths = ctx.run("k_recreate_symbol", [b0, af])
@@ -215,9 +215,9 @@ def check_recreate_sym(ctx):
 
 
 def check_registry(ctx):
-    b0 = ctx.sandbox_base(32, "b0")
-    b1 = ctx.sandbox_base(32, "b1")
-    ctx.assume(b0 != b1)
+    b0 = ctx.sandbox_base(32, "b0", aligned=False)
+    b1 = ctx.sandbox_base(32, "b1", aligned=False)
+    ctx.assume(z3.Or(z3.UGE(b0, b1 + BV(1 << 32, 64)), z3.UGE(b1, b0 + BV(1 << 32, 64))))
     order = ctx.sym("order", 32)
     victim = ctx.sym("victim", 32)
     ctx.assume(z3.ULE(order, 1), z3.ULE(victim, 1))
